@@ -281,7 +281,7 @@ static int op_count_simple(struct ParseCtx *ctx, int min, int max)
 
 static int op_count_full(struct ParseCtx *ctx, const char **re)
 {
-	unsigned a, b;
+	unsigned long a, b;
 	char *end = (char *)*re;
 	bool ext = ctx->rxi->flags & REG_EXTENDED;
 	int err;
